@@ -109,3 +109,72 @@ def dj_families(rng, tier):
         n, es = grid('D', 3, 4)
         out.append(dj_case(cls, n, [(a, b, rng.choice(WEIGHTS)) for a, b in es], 0))
     return out
+
+# ---- Dijkstra: shapes in which a vertex that is already queued gets its distance lowered (decrease-key), with vertices hanging off it ----
+def dj_funnel(rng, k):
+    out = []
+    for _ in range(k):
+        cls = rng.choice(['DW', 'UW'])
+        m = rng.randint(2, 5); mids = list(range(1, m + 1)); v = m + 1; n = m + 2
+        es = []; base = rng.randint(0, 3)
+        for idx, a in enumerate(mids):
+            es.append((0, a, base + idx * rng.randint(1, 2)))
+            es.append((a, v, max(0, (m - idx) * rng.randint(2, 4) - rng.randint(0, 2))))
+        for _ in range(rng.randint(1, 4)):
+            u = n; n += 1
+            es.append((rng.choice([v] + mids + list(range(m + 2, u))) if u > m + 2 else v, u, rng.randint(0, 6)))
+            if rng.random() < 0.6: es.append((rng.choice(mids), u, rng.randint(0, 12)))
+        for _ in range(rng.randint(0, 3)): es.append((rng.randrange(n), rng.randrange(n), rng.randint(0, 12)))
+        rng.shuffle(es); perm = list(range(n)); rng.shuffle(perm)
+        out.append(dj_case(cls, n, [(perm[a], perm[b], w) for a, b, w in es], perm[0]))
+    return out
+def dj_wide(rng, k, nmax=9):
+    out = []
+    for _ in range(k):
+        n = rng.randint(4, nmax)
+        es = [(rng.randrange(n), rng.randrange(n), rng.randint(0, 16)) for _ in range(rng.randint(n, 3 * n))]
+        out.append(dj_case(rng.choice(['DW', 'UW']), n, es, rng.randrange(n)))
+    return out
+
+# ---- change-directed search for C19: hill-climb on (neighbourhood scans) / bound over graphs, evaluated on the implementation ----
+def _edge_entries(case):
+    t = case.split(); cls = t[1]; es = set()
+    for op in case.split(':', 1)[1].split('|')[0].split(';'):
+        o = op.split()
+        if o: a, b = int(o[1]), int(o[2]); es.add((a, b) if cls in ('DW', 'D') else (min(a, b), max(a, b)))
+    return len(es) if cls in ('DW', 'D') else sum(1 if a == b else 2 for a, b in es)
+def scan_ratio(case, I):
+    """scans / bound for a DJ case (line 0, bound V+E+1) or a PATH case (all-predecessor search = line 1, bound V+E)"""
+    try:
+        dj = case.startswith('DJ'); segs = I[0 if dj else 1][2:].split('|')
+        n = int(case.split()[3]); return int(segs[2].split()[0]) / float(n + _edge_entries(case) + (1 if dj else 0))
+    except Exception: return 0.0
+def climb_scans(run_only, rng, budget_s, kinds=('DJ', 'PATH'), log=None):
+    import time
+    t0 = time.time(); tried = []; top = {}
+    for kind in kinds:
+        def mk(st):
+            cls, n, es, s = st
+            return dj_case(cls, n, es, s) if kind == 'DJ' else graph_case('PATH', cls, n, [(a, b) for a, b, _ in es], (s, (s + 1) % max(n, 1)))
+        def mutate(st):
+            cls, n, es, s = st; es = list(es); r = rng.random()
+            if r < 0.35 and es: k = rng.randrange(len(es)); a, b, w = es[k]; es[k] = (a, b, max(0, w + rng.choice([-3, -2, -1, 1, 2, 3, 5])))
+            elif r < 0.6: es.append((rng.randrange(n), rng.randrange(n), rng.randint(0, 20)))
+            elif r < 0.7 and es: es.pop(rng.randrange(len(es)))
+            elif r < 0.85 and n < 16: es.append((rng.randrange(n), n, rng.randint(0, 20))); es.append((n, rng.randrange(n), rng.randint(0, 20))); n += 1
+            elif es: k = rng.randrange(len(es)); a, b, w = es[k]; es[k] = (a, rng.randrange(n), w)
+            return (cls, n, es, s)
+        pop = []
+        for _ in range(40):
+            n = rng.randint(5, 9)
+            pop.append((rng.choice(['DW', 'UW'] if kind == 'DJ' else ['D', 'U']), n, [(rng.randrange(n), rng.randrange(n), rng.randint(0, 16)) for _ in range(rng.randint(n, 3 * n))], 0))
+        best = 0.0; deadline = t0 + budget_s * (kinds.index(kind) + 1) / len(kinds)
+        while time.time() < deadline and best <= 1.0:
+            cand = {mk(st): st for st in pop + [mutate(rng.choice(pop)) for _ in range(200)]}
+            impl, _ = run_only(list(cand))
+            sc = {c: scan_ratio(c, impl.get(c, [])) for c in cand}
+            ranked = sorted(cand, key=lambda c: -sc[c])
+            pop = [cand[c] for c in ranked[:30]]; best = max(best, sc[ranked[0]]); tried += ranked[:3]
+        top[kind] = round(best, 3)
+    if log is not None: log.update(top)
+    return list(dict.fromkeys(tried))
